@@ -184,15 +184,44 @@ func quiescent(c *sim.Cluster) (bool, string) {
 func (x *Exec) FairSuffix(maxCycles int) SuffixResult {
 	res := SuffixResult{}
 	// payload-carrying events held by a live node when the suffix starts must get committed
+	loaded := map[string]bool{}
+	for _, n := range babblers(x.C) {
+		for h := range n.Has {
+			if r := x.C.Events[h]; r != nil && (len(r.Txs) > 0 || len(r.Itxs) > 0) {
+				loaded[h] = true
+			}
+		}
+	}
+	allReceived := func() (bool, string) {
+		for _, n := range babblers(x.C) {
+			if !n.FullHistory() {
+				continue
+			}
+			for h := range loaded {
+				e, err := n.Store.GetEvent(h)
+				if err != nil {
+					return false, fmt.Sprintf("node %d does not hold loaded event %s", n.Idx, h[:10])
+				}
+				if !e.VInfo().HasRoundReceived {
+					return false, fmt.Sprintf("loaded event %s not committed at node %d", h[:10], n.Idx)
+				}
+			}
+		}
+		return true, ""
+	}
 	for cyc := 0; cyc <= maxCycles; cyc++ {
 		if x.Dead() {
 			res.Reason = "execution dead"
 			return res
 		}
 		if ok, why := quiescent(x.C); ok {
-			res.Quiescent = true
-			res.Cycles = cyc
-			return res
+			if ok2, why2 := allReceived(); ok2 {
+				res.Quiescent = true
+				res.Cycles = cyc
+				return res
+			} else {
+				res.Reason = why2
+			}
 		} else {
 			res.Reason = why
 		}
